@@ -554,7 +554,9 @@ func (dt *DateTime) String() string {
 	if dt == nil {
 		return ""
 	}
-	return strconv.Quote(time.Unix(0, int64(*dt)).String())
+	// a fixed nine-digit fraction: parseLqlDateTime's formats need at least three fractional digits, and
+	// time.Time.String() trims trailing zeros
+	return strconv.Quote(time.Unix(0, int64(*dt)).Format("2006-01-02 15:04:05.000000000 -0700 MST"))
 }
 
 // === Size
@@ -612,8 +614,9 @@ func (t *Truncate) makeString(sb *strings.Builder) {
 	}
 
 	if t.Before != nil {
-		val := t.Before.String()
-		addStringIfNotEmpty("BEFORE", &val, sb)
+		// String() is already quoted
+		sb.WriteString(" BEFORE ")
+		sb.WriteString(t.Before.String())
 	}
 }
 
